@@ -224,7 +224,13 @@ def judge(impl: str, cfg, hist, obs: List[Dict[str, Any]], vb: VB, read_scans: b
                 s.rep = dly
                 s.released_for = None
         elif k == "snap":
-            pass
+            # save -> fresh matrix -> load is the identity on everything a program can see: the queue first of all
+            if i > 0 and o["fifo"] != obs[i - 1]["fifo"]:
+                vb.add(f"C14/{tag}/snapshot/queue-changed/len={len(obs[i - 1]['fifo'])}", f"{impl} cfg={cfg}: the event queue was {obs[i - 1]['fifo']} before and "
+                       f"{o['fifo']} after save/load ({hist[:i + 1][-4:]})", wit)
+            if i > 0 and (o.get("kol"), o.get("koh")) != (obs[i - 1].get("kol"), obs[i - 1].get("koh")):
+                vb.add(f"C14/{tag}/snapshot/strobe-registers-changed", f"{impl} cfg={cfg}: KOL/KOH {obs[i - 1].get('kol')}/{obs[i - 1].get('koh')} -> "
+                       f"{o.get('kol')}/{o.get('koh')} by save/load", wit)
         # --- events -----------------------------------------------------------------------
         if k == "tick":
             got = o.get("events", [])
@@ -527,6 +533,7 @@ def _py_keyi(cfg, vb: VB) -> int:
 def run(ctx) -> None:
     rb.build()
     py_cfgs = [(ah, p, r, d, i) for ah in (True, False) for (p, r, d, i) in ((1, 1, 1, 1), (2, 2, 2, 1), (2, 1, 3, 2))]
+    py_cfgs += [(True, 1, 2, 0, 2), (True, 2, 1, 0, 1)]          # no repeat delay: the first repeat follows the press at once
     rs_cfgs = [(ah, p, 6, 24, 6) for ah in (True, False) for p in (1, 2)]
     depth_py = 7 if ctx.thorough else 5
     depth_rs = 6 if ctx.thorough else 4
